@@ -173,11 +173,11 @@ __CPROVER_ensures(g_k != self->track_slot_ ==> self->states_->state.ptr[g_k].ene
 LEAF_CHECKS = ["--bounds-check", "--pointer-check"]
 UNITS = [
     Unit("c01_ptv_energy_get", build_ptv_energy_get, "h_ptv", enforce="PTVR_energy", timeout=120, must_have=[r"PTVR_energy.postcondition", r"celer_expect"], checks=LEAF_CHECKS, note="ParticleTrackView::energy()"),
-    Unit("c01_ptv_subtract_energy", build_ptv_subtract, "h_ptv", enforce="PTVR_subtract_energy", timeout=120, must_have=[r"PTVR_subtract_energy.postcondition", r"celer_expect"], checks=LEAF_CHECKS,
+    Unit("c01_ptv_subtract_energy", build_ptv_subtract, "h_ptv", enforce="PTVR_subtract_energy", timeout=900, backend=["sat", "cvc5"], must_have=[r"PTVR_subtract_energy.postcondition", r"celer_expect"], checks=LEAF_CHECKS,
          note="ParticleTrackView::subtract_energy: E' == E - d exactly, 0 <= E' <= E, only this slot written"),
     Unit("c01_ptv_energy_set", build_ptv_energy_set, "h_ptv", enforce="PTVR_energy_set", timeout=120, must_have=[r"PTVR_energy_set.postcondition", r"celer_expect"], checks=LEAF_CHECKS, note="ParticleTrackView::energy(Energy)"),
     Unit("c01_ptv_is_stopped", build_ptv_is_stopped, "h_ptv", enforce="PTVR_is_stopped", timeout=120, must_have=[r"PTVR_is_stopped.postcondition"], checks=LEAF_CHECKS, note="ParticleTrackView::is_stopped"),
-    Unit("c01_psv_deposit_energy", build_psv_deposit, "h_psv", enforce="PSVR_deposit_energy", timeout=120, must_have=[r"PSVR_deposit_energy.postcondition", r"celer_expect"], checks=LEAF_CHECKS,
+    Unit("c01_psv_deposit_energy", build_psv_deposit, "h_psv", enforce="PSVR_deposit_energy", timeout=900, backend=["sat", "cvc5"], must_have=[r"PSVR_deposit_energy.postcondition", r"celer_expect"], checks=LEAF_CHECKS,
          note="PhysicsStepView::deposit_energy: dep' == dep + e exactly, only this slot written"),
     Unit("c01_psv_reset", build_psv_reset, "h_psv", enforce="PSVR_reset", timeout=120, must_have=[r"PSVR_reset.postcondition"], checks=LEAF_CHECKS, note="PhysicsStepView::reset_energy_deposition"),
 ]
